@@ -4,6 +4,7 @@ open BinNat
 open BinNums
 open Bool
 open Datatypes
+open DcViews
 open Json
 open List
 open NodeInd
@@ -41,7 +42,8 @@ val sort_strs : str list -> str list
 type case_result = { cr_relevant : bool; cr_roundtrip : bool;
                      cr_same_status : bool; cr_same_out : bool;
                      cr_same_diag : bool; cr_model_out : jv;
-                     cr_model_diags : str list; cr_extra : (str * str) list }
+                     cr_model_diags : str list; cr_extra : (str * str) list;
+                     cr_views : jv }
 
 val b2s : bool -> str
 
